@@ -88,7 +88,7 @@ PROPS = {
     },
     "C06": {
         "controls": ["FLW-guard"],
-        "rules": [("FLW-1", flw.flw1), ("FLW-10", flw.flw10), ("FLW-11", flw.flw11), ("FLW-12", flw.flw12), ("FLW-8", flw2.flw8), ("FLW-8c", r5.flw8c), ("FLW-15", r5.flw15), ("TAB-9", r5.tab9), ("TAB-10", r5.tab10), ("SYN-5", r5.syn5), ("TAB-12", r5.tab12)],
+        "rules": [("FLW-1", flw.flw1), ("FLW-10", flw.flw10), ("FLW-11", flw.flw11), ("FLW-12", flw.flw12), ("FLW-8", flw2.flw8), ("FLW-8c", r5.flw8c), ("FLW-8s", r5.flw8s), ("FLW-15", r5.flw15), ("TAB-9", r5.tab9), ("TAB-10", r5.tab10), ("SYN-5", r5.syn5), ("TAB-12", r5.tab12)],
         "explanation": "FLW-10: in input_match_at a match reported after the scan loop (the word ran out mid-match) is conditioned on `state_index`, i.e. only the trailing boundary may be left unmatched (on the pinned tree it was not: `a x $ > e` rewrote `ka`; repaired, F7). FLW-11: for every element kind of SubRule::input_match_item, the number of times `*state_index` is advanced on a path that ends in a successful match is exactly one, counted structurally over the HIR with summaries of the matchers that receive the index (a matcher that advances inside a loop, the ellipsis, is exempt); on the pinned tree syllable variables and syllables inside sets advanced it twice, so the next element was skipped (`%=1 1 q > *`, `{%,x} q > *`; repaired, F8). FLW-12 (context side): no arm of context_match advances the state index (its callers do), and every index-driven loop around context_match — match_before_env, match_after_env, context_match_ellipsis, context_match_option, match_opt_states, insertion_between — advances it exactly once per matched element. FLW-8: a restarted or new match attempt never sees bindings of an abandoned one. FLW-1 decides the no-write-without-match clause of C06: the four matchers take the word as &Word and Word/Syllable/Segment are Freeze with no "
                        "unaudited unsafe in their call tree, so a failed or partial match cannot have altered it; in SubRule::apply the word is replaced only by "
                        "the result of transform, whose call is reachable only on the non-empty edge of the input match and the true edge of "
@@ -227,7 +227,7 @@ PROPS = {
     },
     "C04": {
         "controls": ["BIT"],
-        "rules": [("TAB-1", tab.tab1), ("TAB-2", tab.tab2), ("TAB-3", tab.tab3), ("BIT-3", bit.bit3), ("FLW-8", flw2.flw8), ("FLW-8c", r5.flw8c), ("ENV-4", env4mod.env4), ("POL-1", pol.pol1), ("SHR-5", r5.shr5), ("TAB-9", r5.tab9), ("SUP-8", r5.sup8), ("TAB-11", r5.tab11), ("POL-2", r5.pol2)],
+        "rules": [("TAB-1", tab.tab1), ("TAB-2", tab.tab2), ("TAB-3", tab.tab3), ("BIT-3", bit.bit3), ("FLW-8", flw2.flw8), ("FLW-8c", r5.flw8c), ("FLW-8s", r5.flw8s), ("ENV-4", env4mod.env4), ("POL-1", pol.pol1), ("SHR-5", r5.shr5), ("TAB-9", r5.tab9), ("SUP-8", r5.sup8), ("TAB-11", r5.tab11), ("POL-2", r5.pol2)],
         "explanation": "ENV-4: in match_contexts_and_exceptions the contexts are matched before the exceptions, so an alpha first bound in the context carries into the exception. POL-1 decides the sign clauses ('named value', 'or its inverse with -α') as sibling agreement: in each of the 39 matches on BinMod / AlphaMod of the library, arms with the same skeleton differ in polarity (never the same code for both signs), and the sites whose meaning the accessors fix -- third argument of Segment::set_feat / feat_match, `Alpha::Feature(f != 0)` -- receive the positive polarity in the Positive / Alpha arm and the negative one in the Negative / InvAlpha arm. FLW-8 decides the scoping clause of alpha binding ('in the same application'): on MIR, every call of input_match_at in SubRule::apply is dominated inside the scan loop by HashMap::clear of both `alphas` and `variables` (directly or through a SubRule method that clears on every path), and every restart of a partial input match in input_match_at (`state_index = 0` inside the loop) is paired in the same iteration with clears of both tables. BIT-3 decides the single-feature equations of C04 for all segments at once by bit-level abstract interpretation of Segment::{get_node,set_node,set_feat,feat_match}: on a symbolic segment (3 symbolic bytes, place = one of 17 presence shapes with symbolic payloads), for every node, single-bit mask and polarity: feat_match is the named bit (its negation for -) and false on an absent sub-node; set_feat(+) yields old|bit (creating an absent sub-node with its other bits 0), set_feat(-) yields old&!bit and is the identity on an absent sub-node; every other node reads exactly as before; the feature then matches with the polarity set. Tables: the hand-maintained index tables (FType/NodeType/NodeKind "
                        "from_usize & count, DiaFeatType = NodeType++FType, hm_to_mod split constant, modifier array lengths, "
                        "diacritics.json keys) agree, the 16-bit place packing is laid out consistently and used consistently by its accessors (TAB-3, see C18), and FType::to_node_mask maps every feature to exactly one bit, bits of a node "
